@@ -912,6 +912,29 @@ func (x *c16X) judgeEnv(m *c16Msg, d *c16Dlv, party, api, variant, via int) c16R
 			} else {
 				out, err = p7.Decrypt(cert, key)
 			}
+			if err == nil && keyOK && !d.altered && bytes.Equal(out, m.content) && (m.sess == nil || !m.sess.masked) {
+				// the SAME parsed message, the same recipient certificate, but the key of somebody who holds another key of that
+				// type: having been opened once must not make the object open for everybody
+				me := x.w.parties[x.resolveParty(m, party)]
+				for _, o := range x.w.parties {
+					if o.kind != me.kind || o.keyID == me.keyID || o.slow {
+						continue
+					}
+					var out2 []byte
+					var err2 error
+					if useCFCA {
+						out2, err2 = p7.DecryptCFCA(cert, o.key)
+					} else {
+						out2, err2 = p7.Decrypt(cert, o.key)
+					}
+					x.c.Hit("fault:wrong-key-after-successful-open")
+					if err2 == nil && bytes.Equal(out2, m.content) && len(m.content) > 0 {
+						x.fail("non-recipient-opens", "after %s had opened the parsed EnvelopedData, Decrypt with the key of %s (another key) on the same object returns the content", name, o.name)
+						return c16Res{}
+					}
+					break
+				}
+			}
 		}
 	}
 	if err == nil && used != nil {
